@@ -217,6 +217,8 @@ class PatternAnalyzer:
                 | pdl.OperandOp
                 | pdl.OperandsOp
                 | pdl.OperationOp
+                | pdl.ResultOp
+                | pdl.ResultsOp
                 | pdl.TypeOp
                 | pdl.TypesOp,
             ):
